@@ -600,9 +600,10 @@ func c12(o Opts) error {
 	}
 	sort.Strings(keys)
 	var sb strings.Builder
-	sb.WriteString("From ZV Require Import Base.Prelude Model.Journal Model.JournalCases.\n")
+	sb.WriteString("From ZV Require Import Base.Prelude Model.Journal Model.JournalCases Model.PoolCreate.\n")
 	WriteCoqList(&sb, "trace_cases", "trace_case", traceCases)
-	sb.WriteString("Definition M := Eval vm_compute in (trace_mismatches 0 trace_cases).\nPrint M.\n")
+	WriteCoqList(&sb, "create_cases", "create_case", createCases)
+	sb.WriteString("Definition M := Eval vm_compute in (trace_mismatches 0 trace_cases, create_mismatches create_cases).\nPrint M.\n")
 	if err := os.WriteFile(o.Out+"/cases.v", []byte(sb.String()), 0644); err != nil {
 		return err
 	}
